@@ -512,7 +512,13 @@ func (st *fstate) applySummary(in ssa.Instruction, callee *ssa.Function, sum *Su
 					out := set{}
 					if j < len(pc.Args) {
 						for kk := range pc.Args[j] {
-							out.addAll(mapObj(kk))
+							// the operand regions were recorded in the callee's name space: parameters, package-level
+							// variables and fresh results translate; a local allocation site of the callee is memory
+							// this function cannot see (what it points to is already part of the region), and its
+							// name must not be read as one of this function's own sites
+							if strings.HasPrefix(kk, "P") || strings.HasPrefix(kk, "G:") || kk == "Fresh" {
+								out.addAll(mapObj(kk))
+							}
 						}
 					}
 					return out
